@@ -121,6 +121,54 @@ Fixpoint lrun (s : lstate) (tr : list llabel) : option lstate :=
   | a :: tr' => match lstep s a with Some s' => lrun s' tr' | None => None end
   end.
 
+(* ---- several SimpleLoggers over ONE shared log.Logger, used one call at a time ----
+   The log.Logger keeps its prefix between calls; a SimpleLogger leaves its last level label there.
+   `captures` says whether the constructor stores the log.Logger's prefix of that moment as a
+   "user prefix" which every method then puts in front of its level label (it does not in the
+   source: Params.simple_ctor_captures_prefix). *)
+Record wrapped := { w_thr : Z; w_user_prefix : string }.
+Record shstate := { sh_prefix : string; sh_loggers : list wrapped }.
+Inductive shop :=
+| ShNew (thr : Z)                                                   (* NewSimpleLogger(shared, thr) *)
+| ShLog (id : nat) (l : level) (msg : string) (args : list string). (* the id-th SimpleLogger's method l *)
+
+Definition sh_init (p0 : string) : shstate := {| sh_prefix := p0; sh_loggers := [] |}.
+
+Definition sh_step (captures : bool) (s : shstate) (op : shop) : shstate * option string :=
+  match op with
+  | ShNew thr =>
+      ({| sh_prefix := sh_prefix s;
+          sh_loggers := sh_loggers s ++ [{| w_thr := thr; w_user_prefix := if captures then sh_prefix s else "" |}] |}, None)
+  | ShLog id l msg args =>
+      match nth_error (sh_loggers s) id with
+      | None => (s, None)
+      | Some w =>
+          if simple_enabled (w_thr w) l then
+            let p := w_user_prefix w ++ simple_prefix l in       (* SetPrefix *)
+            ({| sh_prefix := p; sh_loggers := sh_loggers s |}, Some (p ++ format_message msg args))  (* Output *)
+          else (s, None)
+      end
+  end.
+
+(* what each operation wrote *)
+Fixpoint sh_run (captures : bool) (s : shstate) (ops : list shop) : list (option string) :=
+  match ops with
+  | [] => []
+  | op :: rest => let '(s', o) := sh_step captures s op in o :: sh_run captures s' rest
+  end.
+
+(* the specification: every call behaves as the stateless simple_emit of its own logger's threshold *)
+Fixpoint sh_spec (thrs : list Z) (ops : list shop) : list (option string) :=
+  match ops with
+  | [] => []
+  | ShNew thr :: rest => None :: sh_spec (thrs ++ [thr]) rest
+  | ShLog id l msg args :: rest =>
+      match nth_error thrs id with
+      | Some thr => simple_emit thr l msg args
+      | None => None
+      end :: sh_spec thrs rest
+  end.
+
 (* ---- correspondence-check entry points (evaluated by the harness inside Coq) ---- *)
 Definition level_of_nat (n : nat) : level :=
   match n with 0 => Trace | 1 => Debug | 2 => Info | 3 => Warn | _ => Error end%nat.
@@ -143,5 +191,12 @@ Definition slog_obs_eqb (a b : option (Z * string * list (string * string))) : b
   match a, b with
   | None, None => true
   | Some (l1, m1, a1), Some (l2, m2, a2) => (l1 =? l2) && String.eqb m1 m2 && attrs_eqb a1 a2
+  | _, _ => false
+  end.
+
+Fixpoint opt_strings_eqb (a b : list (option string)) : bool :=
+  match a, b with
+  | [], [] => true
+  | x :: a', y :: b' => opt_string_eqb x y && opt_strings_eqb a' b'
   | _, _ => false
   end.
